@@ -109,7 +109,7 @@ func init() {
 		Level: "exploration",
 		Rule: "every composition to depth 2 (quick, 90 shapes) / 3 (thorough, 819 shapes) of the nine tail contexts {cond arm 1, cond arm 2, cond default, begin, let, letseq, newScope, last of and, last of or} around a self call, times seven bodies (nothing; defines locals; opens/closes scopes and a loop before the call; accumulates closures capturing the parameter and a local; another self call inside an argument of the tail call; the argument itself being a self call; the same below cond/let inside the argument). " +
 			"(a) space: each shape is run at depths 0,1,10,30,100,300,1000 (10^4 for every ninth case in quick and every third in thorough; thorough 10^5 for every 27th case and 10^6 for every 360th, the latter without the reference comparison; the closure-accumulating body up to 300) while the step hook samples the high-water marks of the data/scope/address/loop stacks; they must be identical for all n>=10 and the run must finish within a step budget linear in n. " +
-			"(b) transparency: value, effect trace and (closure body) the values obtained by calling every accumulated closure equal those of the de-optimised twin (self call wrapped in a host identity call, so not in tail position) on the real VM for n<=100, and those of the reference evaluator (which has no tail calls) for all n. (c) non-tail contexts: 34 forms in which more work follows the self call (array/list/hash/template construction, assert, arithmetic, tests, initializers, assignments, loop bodies, non-final operands) and two wrong-arity self calls, each below every tail context: value/error-ness, trace and rest state must equal those of the same function with the self call wrapped in a host identity call. non-trivial = every (shape, body) pair (distinct by construction)",
+			"(b) transparency: value, effect trace and (closure body) the values obtained by calling every accumulated closure equal those of the de-optimised twin (self call wrapped in a host identity call, so not in tail position) on the real VM for n<=100, and those of the reference evaluator (which has no tail calls) for all n. (c) non-tail contexts: 34 forms in which more work follows the self call (array/list/hash/template construction, assert, arithmetic, tests, initializers, assignments, loop bodies, non-final operands) and two wrong-arity self calls, each below every tail context: value/error-ness, trace and rest state must equal those of the same function with the self call wrapped in a host identity call. (d) 23 tail-recursive functions with unusual signatures and bodies (variadic with zero / one / several / alternating extras, zero parameters driven by globals, body-level def locals captured by closures or re-defined with another type, lazy formals in any position, typed func declarations, return, package members, loops and nested scopes before the call, a wrong-arity branch): same twin oracle at depths 0-6, rest state, and equal high-water marks at depths 30 and 300. non-trivial = every (shape, body) pair (distinct by construction)",
 		Assumptions: []string{
 			"constant space is checked as equality of stack high-water marks over the explored depths, not for all depths",
 			"heap growth is not judged (the closure-accumulating body grows its accumulator by design)",
@@ -117,7 +117,7 @@ func init() {
 		NCases:       func(c *core.Ctx) int { return len(c09Shapes(thorN(c, 2, 3)))*c09Bodies + c09NonTailCases() },
 		Chunk:        15,
 		Exhaustive:   func(c *core.Ctx) bool { return true },
-		MustSee:      []string{"depth_runs", "twin_comparisons", "reference_comparisons", "highwater_samples", "non_tail_contexts"},
+		MustSee:      []string{"depth_runs", "twin_comparisons", "reference_comparisons", "highwater_samples", "non_tail_contexts", "signature_shapes"},
 		CaseTimeoutS: 120,
 		Run:          c09Run,
 	})
@@ -135,7 +135,101 @@ var c09NonTail = []string{
 // self calls: the well-formed one and two with the wrong number of arguments (must fail, in both variants)
 var c09Self = []string{"(f (- n 1))", "(f (- n 1) 7)", "(f)"}
 
-func c09NonTailCases() int { return (len(c09NonTail) + len(c09Self) - 1) * (len(c09Ctx) + 1) }
+func c09NonTailCases() int {
+	return (len(c09NonTail)+len(c09Self)-1)*(len(c09Ctx)+1) + len(c09Sig)
+}
+
+// Signature family: tail-recursive functions with unusual signatures and bodies. @…@ marks the
+// tail self call (the twin wraps it in the host identity call); N is replaced by the depth.
+var c09Sig = []struct{ def, call string }{
+	{"(defn f [n & r] (tr 1 n) (cond (<= n 0) r @(f (- n 1))@))", "(f N)"},
+	{"(defn f [n & r] (tr 1 (len r)) (cond (<= n 0) r @(f (- n 1) n)@))", "(f N)"},
+	{"(defn f [n & r] (cond (<= n 0) r @(f (- n 1) n (* n 2))@))", "(f N 9)"},
+	{"(defn f [n & r] (cond (<= n 0) (len r) (== 0 (mod n 2)) @(f (- n 1))@ @(f (- n 1) 1 2)@))", "(f N 7 8 9)"},
+	{"(defn f [n a & r] (cond (<= n 0) (list a r) @(f (- n 1) (+ a n))@))", "(f N 0)"},
+	{"(def k N) (defn f [& r] (set k (- k 1)) (cond (<= k 0) r @(f)@))", "(f 4 5)"},
+	{"(def k N) (defn f [& r] (set k (- k 1)) (cond (<= k 0) r @(f k k)@))", "(f)"},
+	{"(def k N) (def acc []) (defn f [] (def loc (* k 10)) (set acc (append acc (fn [] loc))) (set k (- k 1)) (cond (<= k 0) acc @(f)@))", "(map (fn [g] (g)) (f))"},
+	{"(def k N) (defn f [] (def x (cond (== 0 (mod k 2)) \"s\" 5)) (set k (- k 1)) (cond (<= k 0) x @(f)@))", "(f)"},
+	{"(def k N) (def t 0) (defn f [] (tr 1 k) (set t (+ t k)) (set k (- k 1)) (cond (<= k 0) t @(f)@))", "(f)"},
+	{"(defn f [n acc] (def loc (* n 10)) (cond (<= n 0) acc @(f (- n 1) (append acc (fn [] (+ loc n))))@))", "(map (fn [g] (g)) (f N []))"},
+	{"(defn f [n] (def x (cond (== 0 (mod n 2)) \"s\" 5)) (cond (<= n 0) x @(f (- n 1))@))", "(f N)"},
+	{"(defn f [n #y] (cond (<= n 0) 0 @(f (- n 1) (tr 5 n))@))", "(f N (tr 6 1))"},
+	{"(defn f [n #y] (cond (<= n 0) (force #y) @(f (- n 1) (tr 5 n))@))", "(f N (tr 6 1))"},
+	{"(defn f [#y n] (cond (<= n 0) 0 @(f (tr 5 n) (- n 1))@))", "(f (tr 6 1) N)"},
+	{"(func g [n:int64 a:int64] [r:int64] (cond (== n 0) a @(g (- n 1) (+ a n))@))", "(g N 0)"},
+	{"(func g [n:int64 #y:int64] [r:int64] (cond (== n 0) 0 @(g (- n 1) (tr 5 n))@))", "(g N (tr 6 1))"},
+	{"(func g [n:int64] [r:int64] (tr 1 n) (cond (== n 0) 0 (return @(g (- n 1))@)))", "(g N)"},
+	{"(defn f [n] (let [m (- n 1)] (letseq [p m q p] (newScope (cond (<= n 0) 0 @(f q)@)))))", "(f N)"},
+	{"(defn f [n] (for [(def i 0) (< i 2) (def i (+ i 1))] (tr 2 i)) (cond (<= n 0) 0 @(f (- n 1))@))", "(f N)"},
+	{"(defn f [n h] (hset h n n) (cond (<= n 0) (len (keys h)) @(f (- n 1) h)@))", "(f N (hash))"},
+	{"(def p (package \"p\" (defn F [n a] (cond (<= n 0) a @(F (- n 1) (+ a n))@)))) ", "(p.F N 0)"},
+	{"(defn f [n] (cond (<= n 0) 0 (> n 1000000) @(f)@ @(f (- n 1))@))", "(f N)"},
+}
+
+func c09SigRun(c *core.Ctx, k int) *core.Result {
+	t := c09Sig[k]
+	opt := strings.ReplaceAll(t.def, "@", "") + "\n"
+	twin := t.def
+	for strings.Contains(twin, "@") { // @X@ -> (idw X)
+		twin = strings.Replace(twin, "@", "(idw ", 1)
+		twin = strings.Replace(twin, "@", ")", 1)
+	}
+	twin += "\n"
+	res := &core.Result{Input: opt + t.call, Nontrivial: true}
+	res.Hash = core.HashOf(res.Input)
+	outcome := func(o *sut.Outcome) string {
+		if o.Err != nil || o.Budget {
+			return "ERR"
+		}
+		return OutStr(o)
+	}
+	for _, n := range []int{0, 1, 2, 3, 6} {
+		nn := fmt.Sprint(n)
+		a, b := NewSutRun(true), NewSutRun(true)
+		oa := a.Eval(strings.ReplaceAll(opt+t.call, "N", nn)+"\n", 400000)
+		ob := b.Eval(strings.ReplaceAll(twin+t.call, "N", nn)+"\n", 400000)
+		res.Evals += 2
+		res.Ev("signature_shapes", 1)
+		if oa.Panic != "" {
+			res.Violate("escaped-panic:"+oa.Site, oa.Panic, res.Input)
+			return res
+		}
+		if ob.Budget || ob.Panic != "" {
+			res.Verdict, res.Key = core.Inconclusive, "twin-did-not-finish"
+			return res
+		}
+		if outcome(oa) != outcome(ob) || strings.Join(a.Trace, ",") != strings.Join(b.Trace, ",") {
+			res.Violate("tail-call-changes-behaviour", fmt.Sprintf("N=%d: the function gives %s trace %v; with the self call wrapped in a host identity call it gives %s trace %v", n, outcome(oa), a.Trace, outcome(ob), b.Trace), strings.ReplaceAll(opt+t.call, "N", nn))
+			return res
+		}
+		if d := sut.DepthsOf(a.Env); oa.Err == nil && (!atRest(d) || d.Data != 0) {
+			res.Violate("not-at-rest-after-tail-recursion", fmt.Sprintf("N=%d: %v", n, d), strings.ReplaceAll(opt+t.call, "N", nn))
+			return res
+		}
+	}
+	// space: high-water marks at N=30 and N=300 must agree (the accumulating shapes grow their data by design: skipped)
+	if !strings.Contains(t.def, "append") && !strings.Contains(t.def, "hset") {
+		var marks [2][4]int
+		for j, n := range []int{30, 300} {
+			s := NewSutRun(true)
+			zygo.Verif.Watch = s.Env
+			o := s.Eval(strings.ReplaceAll(opt+t.call, "N", fmt.Sprint(n))+"\n", 3000000)
+			zygo.Verif.Watch = nil
+			marks[j] = [4]int{zygo.Verif.HiData, zygo.Verif.HiScope, zygo.Verif.HiAddr, zygo.Verif.HiLoop}
+			res.Evals++
+			if o.Budget || o.Panic != "" {
+				res.Violate("deep-tail-recursion-did-not-complete", fmt.Sprintf("N=%d: %s", n, OutStr(o)), res.Input)
+				return res
+			}
+		}
+		if marks[0] != marks[1] && !strings.Contains(t.def, "& r] (cond (<= n 0) r @(f (- n 1) n") {
+			res.Violate("stack-grows-with-depth", fmt.Sprintf("high-water marks (data,scope,addr,loop) at N=30: %v, at N=300: %v", marks[0], marks[1]), res.Input)
+		}
+		res.Ev("highwater_samples", 2)
+	}
+	return res
+}
 
 // c09NonTailRun: a self call inside a form that still has work to do after it must not be
 // compiled as a jump, whatever tail context surrounds that form. Oracle: the same function with
@@ -214,7 +308,11 @@ func c09NonTailRun(c *core.Ctx, k int) *core.Result {
 func c09Run(c *core.Ctx, i int) *core.Result {
 	shapes := c09Shapes(thorN(c, 2, 3))
 	if i >= len(shapes)*c09Bodies {
-		return c09NonTailRun(c, i-len(shapes)*c09Bodies)
+		k := i - len(shapes)*c09Bodies
+		if nt := c09NonTailCases() - len(c09Sig); k >= nt {
+			return c09SigRun(c, k-nt)
+		}
+		return c09NonTailRun(c, k)
 	}
 	shape := shapes[i/c09Bodies]
 	body := i % c09Bodies
